@@ -85,7 +85,14 @@ def op_bf_set(a):
     from spacepackets.util import UnsignedByteField
 
     def run():
-        f = UnsignedByteField(int.from_bytes(bytes(a["v0"]), "big"), a["w"])
+        v0 = int.from_bytes(bytes(a["v0"]), "big")
+        if (a["w"] + sum(a["v0"])) % 2:
+            # a history: the field had another width before (public byte_len setter), then received its value
+            f = UnsignedByteField(0, {0: 1, 1: 8, 2: 1, 4: 8, 8: 2}[a["w"]])
+            f.byte_len = a["w"]
+            f.value = v0
+        else:
+            f = UnsignedByteField(v0, a["w"])
         try:
             if a["by"] == "int":
                 f.value = to_int(a["x"])
